@@ -29,7 +29,7 @@ BUDGET = {
     "thorough": {"runs": 1500000, "wall": 840, "chunk": 50, "shrink_evals": 600},
 }
 
-FAULT_KINDS = ["abort", "stack_exhaustion", "stale", "handover"]
+FAULT_KINDS = ["abort", "stack_exhaustion", "stale", "handover", "rejected_config"]
 
 PROBES = [
     "layers_ge_3", "layer_with_two_labels_over_budget", "label_and_stub_tie_on_target",
@@ -210,7 +210,7 @@ def gen_plan(rng, tier):
     neng = rng.choice([1, 1, 2, 3])
     big = rng.random() < (0.02 if tier == "quick" else 0.05)
     sets = [gen_labels(rng, big and i == 0) for i in range(nsets)]
-    enabled = {k: rng.random() < 0.5 for k in ("abort", "stack", "stale")}
+    enabled = {k: rng.random() < 0.5 for k in ("abort", "stack", "stale", "badcfg")}
     if rng.random() < 0.25:
         enabled = {k: False for k in enabled}  # a fault-free configuration
     ops = []
@@ -261,7 +261,17 @@ def gen_plan(rng, tier):
                 delta["maxPos"] = merged["minPos"] + rng.choice([50, 200, 800])
                 merged.update(delta)
             eng_opts[e] = merged
-            ops.append(["config", e, delta])
+            if enabled.get("badcfg") and merged.get("minPos") is not None and merged.get("maxPos") is not None \
+                    and rng.random() < 0.4:
+                # rejected call: the same delta, but with the upper bound mistyped as a
+                # string (raises while the layer width is computed), immediately followed
+                # by the corrected call
+                bad = dict(delta)
+                bad["maxPos"] = str(merged["maxPos"])
+                ops.append(["bad_config", e, bad])
+                ops.append(["config", e, {"maxPos": merged["maxPos"]}])
+            else:
+                ops.append(["config", e, delta])
         elif r < 0.7 and enabled["abort"]:
             ops.append(["abort_compute", e, rng.randrange(0, 1000000),
                         rng.choice(["any", "any", "node.py", "distributor.py", "force.py",
@@ -300,7 +310,20 @@ def _bounds_ok(opts):
 def valid(plan):
     """The configurations C04/C06 exclude never appear in a plan: maxPos <= minPos."""
     eng = {}
+    ops = plan["ops"]
+    for i, op in enumerate(ops):
+        if op[0] == "bad_config":
+            nxt = ops[i + 1] if i + 1 < len(ops) else None
+            if nxt is None or nxt[0] != "config" or nxt[1] != op[1] or "maxPos" not in nxt[2] \
+                    or isinstance(nxt[2]["maxPos"], str):
+                return False
+            if not isinstance(op[2].get("maxPos"), str):
+                return False
     for op in plan["ops"]:
+        if op[0] == "bad_config" and op[1] in eng:
+            # keys other than the mistyped bound may stay configured
+            eng[op[1]].update({k: v for k, v in op[2].items() if k != "maxPos"})
+            continue
         if op[0] == "new_engine":
             eng[op[1]] = dict(FORCE_DEFAULTS, **op[2])
         elif op[0] == "config" and op[1] in eng:
@@ -591,6 +614,24 @@ def _run(plan):
                 eng["force"].set_options(dict(op[2]))
                 eng["opts"].update(op[2])
                 eng["reconfigured"] = True
+        elif kind == "bad_config":
+            eng = engines.get(op[1])
+            if eng is None:
+                outcome = "skipped"
+            else:
+                bump("fault:rejected_config:configured")
+                try:
+                    eng["force"].set_options(dict(op[2]))
+                    outcome = "accepted"
+                except Exception as ex:
+                    outcome = "raise:" + type(ex).__name__
+                    bump("fault:rejected_config:fired")
+                # what a rejected call leaves configured is the engine's business
+                # (keep the keys, as this tree does, or reject them all): the model
+                # follows the options the engine itself reports from here on
+                eng["opts"] = {k: v for k, v in eng["force"].options.items() if k != "direction"}
+                eng["reconfigured"] = True
+                eng["after_fault"] = True
         elif kind == "set_labels":
             e, s, mode, seed = op[1], op[2], op[3], op[4]
             eng = engines.get(e)
